@@ -46,6 +46,9 @@ type Folder struct {
 	// OnStore observes every store of the function under evaluation (not of
 	// folded callees) with the folded value.
 	OnStore func(st *ssa.Store, v cval)
+	// Pin forces the value of instructions of the folded function (depth 0)
+	// whatever they compute: the case under study.
+	Pin map[ssa.Value]cval
 	// CallHook may supply the result of a call from its folded arguments.
 	CallHook func(call *ssa.Call, args []cval) (cval, bool)
 	MaxDepth int
@@ -239,6 +242,13 @@ func (f *Folder) eval(fn *ssa.Function, args []cval, depth int) []Outcome {
 				if v, ok := in.(ssa.Value); ok {
 					if a, ok := f.assume(v); ok {
 						env[v] = a
+					}
+				}
+			}
+			if depth == 0 && f.Pin != nil {
+				if v, ok := in.(ssa.Value); ok {
+					if pv, ok := f.Pin[v]; ok {
+						env[v] = pv
 					}
 				}
 			}
